@@ -75,7 +75,7 @@ def only_class(cls):
 
 
 def strip(c):
-    c = copy.deepcopy({k: v for k, v in c.items() if k in ("lockstep", "mux", "maxlen", "opts", "frames")})
+    c = copy.deepcopy({k: v for k, v in c.items() if k in ("lockstep", "mux", "muxlog", "maxlen", "opts", "frames")})
     for f in c["frames"]:
         f.pop("obs", None)
     return c
@@ -97,7 +97,9 @@ class C12(Prop):
                  "relay.go")
     rule = ("one case = one real WebSocket connection (coder/websocket client) to mocrelay.NewRelay(recording handler) behind "
             "httptest.NewServer, half of them mounted through ServeMux; RelayOption is SendTimeout 30 s with a ping every minute, "
-            "or (10% each) SendTimeout 0, SendTimeout 0 and PingDuration 0, PingDuration 0 alone (0 = switched off); 4..15 frames ending with a valid CLOSE/REQ whose "
+            "or (7% each) SendTimeout 0, SendTimeout 0 and PingDuration 0, PingDuration 0 alone (0 = switched off), no option "
+            "at all (the defaults: receive rate 10/s with burst 10, limit 100000 bytes; then a quarter of the valid frames are "
+            "REQs of 40..60 KB with 600..880 ids); half of the ServeMux mounts have a Logger; 4..15 frames ending with a valid CLOSE/REQ whose "
             "scripted reply is a sentinel; each frame is 50% a message that must be forwarded (REQ/COUNT with 1..3 valid "
             "filters, CLOSE, AUTH with an authentic or an altered event, EVENT signed by the harness over its own NIP-01 "
             "serialisation, the same genuine event again, insignificant inner/trailing white space) and 50% one that must draw "
@@ -220,8 +222,10 @@ class C12(Prop):
                     yield c2
         if c.get("mux"):
             yield dict(c, mux=False)
-        if c.get("opts"):
+        if c.get("opts") and c.get("opts") != 4:
             yield dict(c, opts=0)
+        if c.get("muxlog"):
+            yield dict(c, muxlog=False)
         if 0 < (c.get("maxlen") or 0) < (1 << 20):
             yield dict(c, maxlen=1 << 20)
 
